@@ -30,6 +30,23 @@ def all_combos():
         yield {"ord": o, "partial_ord": po, "eq": e, "partial_eq": pe, "hash": h}
 
 
+# argument combinations *inside one attribute* beyond the seven / four listed states (the statement's matrix names the simple states;
+# these are still valid inputs and follow from the same rules: ignore / reverse / key / by are independent arguments)
+ORD_EXTRA = [("ignore", "reverse"), ("ignore", "key"), ("ignore", "by"), ("key", "by"), ("reverse", "key", "by"), ("ignore", "reverse", "key")]
+EQ_EXTRA = [("ignore", "key"), ("ignore", "by"), ("key", "by")]
+
+
+def extended_combos(rng, n):
+    """n random combinations in which at least one attribute is in an extra state"""
+    out = []
+    while len(out) < n:
+        c = {"ord": rng.choice(ORD_CHOICES + ORD_EXTRA), "partial_ord": rng.choice(ORD_CHOICES + ORD_EXTRA), "eq": rng.choice(EQ_CHOICES + EQ_EXTRA),
+             "partial_eq": rng.choice(EQ_CHOICES + EQ_EXTRA), "hash": rng.choice(EQ_CHOICES + EQ_EXTRA)}
+        if any(c[a] in ORD_EXTRA or c[a] in EQ_EXTRA for a in OPS):
+            out.append(c)
+    return out
+
+
 def combo_name(c):
     return ";".join("%s(%s)" % (a, ",".join(c[a])) for a in OPS if c[a]) or "-"
 
